@@ -104,6 +104,30 @@ func (s *session) send(d sets.Desc) bool {
 	return err == nil
 }
 
+// sendBurst hands several (small) sets to SendSet back to back - built beforehand, logged afterwards; deliveries are
+// read by this goroutine only in collect, so the log order stays "handed over, then delivered"
+func (s *session) sendBurst(ds []sets.Desc) {
+	built := make([]entities.Set, len(ds))
+	for i, d := range ds {
+		built[i] = d.Build()
+	}
+	type res struct {
+		n   int
+		err error
+	}
+	out := make([]res, len(ds))
+	for i := range built {
+		out[i].n, out[i].err = s.ep.SendSet(built[i])
+	}
+	for i, d := range ds {
+		s.evals++
+		s.w.Emit(vt.Ev{"e": "ESend", "set": d.JSON(), "ret": out[i].n, "err": out[i].err != nil})
+		if out[i].err == nil {
+			s.pending++
+		}
+	}
+}
+
 func (s *session) deliverOne(m *entities.Message) {
 	ev := vt.Ev{"dom": vt.Limbs(m.GetObsDomainID()), "seq": vt.Limbs(m.GetSequenceNum())}
 	if m.GetSet().GetSetType() == entities.Template {
@@ -246,6 +270,21 @@ func main() {
 				// overflow the socket buffer meanwhile (a loss that would not be the library's doing)
 				if s.lossy || burst >= 1+r.Intn(5) {
 					flush()
+				}
+				// ... except for small messages, which also go out two or three truly back to back on every transport
+				// (far below any socket buffer): a message must not be decoded from its successor's bytes
+				if r.Intn(4) == 0 {
+					flush()
+					var ds []sets.Desc
+					for q := 0; q < 2+r.Intn(2); q++ {
+						if x := sets.Data(r, tid, tmpls[tid], 1+r.Intn(2), 60, 1200); len(x.Recs) > 0 {
+							ds = append(ds, x)
+						}
+					}
+					if len(ds) > 0 {
+						s.sendBurst(ds)
+						flush()
+					}
 				}
 			}
 			// variable-length boundaries end to end: 0, 254, 255 and the largest value that fits one message
